@@ -30,9 +30,9 @@ ENV = {'XLA_FLAGS': '--xla_force_host_platform_device_count=8'}
 SHARD_TIMEOUT = {'quick': 900, 'thorough': 3400}
 MIN_HITS = {
     'quick': {'deg:zero-step-client-with-weight': 4, 'fedprox0-on-pmap': 8, 'mon:fedprox0': 60, 'mon:hyp1': 60, 'mon:apfl': 60, 'mon:mimelite': 20, 'mon:proxoracle': 40,
-              'mon:proxaug': 40, 'mon:mime': 40, 'leg:apfl-rounds': 60},
+              'mon:proxaug': 40, 'mon:mime': 40, 'leg:apfl-rounds': 60, 'hit:reg-family-round': 120, 'regularizer-observable': 8},
     'thorough': {'deg:zero-step-client-with-weight': 60, 'fedprox0-on-pmap': 120, 'mon:fedprox0': 1200, 'mon:hyp1': 1200, 'mon:apfl': 1200, 'mon:mimelite': 400, 'mon:proxoracle': 800,
-                 'mon:proxaug': 800, 'mon:mime': 700, 'leg:apfl-rounds': 1200},
+                 'mon:proxaug': 800, 'mon:mime': 700, 'leg:apfl-rounds': 1200, 'hit:reg-family-round': 1500, 'regularizer-observable': 100},
 }
 EXHAUSTIVE = {'quick': False, 'thorough': False}
 TECHNIQUE = ('runtime monitoring: differential execution of the real algorithms against real FedAvg along seeded '
@@ -147,6 +147,8 @@ class Leg:
     r = ctx.call(f'{name}.init', built.init_state, init, witness=wit)
     self.state = r.value if r.ok else None
     self.alive = r.ok
+    # every state this chain ever held, with a value copy of its server params taken when it was current
+    self.stored = [(self.state, algos.server_params_np(self.state))] if r.ok else []
 
   def step(self, clients, wit, algo=None):
     if not self.alive:
@@ -157,7 +159,18 @@ class Leg:
       return None
     self.state = r.value[0]
     self.ctx.count(f'leg:{self.name}-rounds')
-    return algos.server_params_np(self.state)
+    now = algos.server_params_np(self.state)
+    self.stored.append((self.state, toy.tmap(np.array, now)))
+    return now
+
+  def deferred(self, key, wit):
+    """Read every stored state again at the end of the history: state t still holds the round-t parameters."""
+    for t, (st, snap) in enumerate(self.stored):
+      later = algos.server_params_np(st)
+      d = toy.max_abs_diff(later, snap)
+      self.ctx.check(d == 0, f'{key}/stored-state-changed-by-later-rounds',
+                     f'{self.name}: the state returned for round {t - 1 if t else "init"} holds different server parameters after '
+                     f'later rounds ran (differs by {d:.3g})', {**wit, 'state_index': t, 'then': snap, 'now': later})
 
 
 def compare(ctx, family_key, what, got, expected, tol, wit):
@@ -233,6 +246,8 @@ def run_deg(ctx, fedjax, jax, jnp, h):
       got = leg.step(clients, w)
       if got is not None:
         compare(ctx, f'{key}/params-differ-from-fedavg', f'round {rnd}: {leg.name} vs fed_avg', got, expected, tol, w)
+  for key, leg in list(legs.items()) + [('fedavg', ref)]:
+    leg.deferred(key, wit)
   klass = ['family=deg', f"copt={h['cspec'][0]}", f"sopt={h['sspec'][0]}"] + (['discarded'] if discarded else [])
   if h.get('zero_step_client'):
     klass.append('deg:zero-step-client-with-weight')
@@ -343,7 +358,75 @@ def run_mime(ctx, fedjax, jax, jnp, h):
   ctx.case_done(key if (nontrivial and not discarded) else None, sample=wit, klass=klass)
 
 
-RUNNERS = {'deg': run_deg, 'prox': run_prox, 'mime': run_mime}
+# ------------------------------- family reg: regularised HypCluster(1) / MimeLite next to unregularised twins
+def run_reg(ctx, fedjax, jax, jnp, h):
+  """Several algorithm objects built in one process from the SAME loss / optimizer objects, with and without a regularizer.
+
+  Built in the order plain, regularised, plain: each must equal FedAvg on ITS objective (mean loss, resp. mean loss +
+  regularizer), whatever was built before it.
+  """
+  raw, ids, init = make_world(h)
+  dsets = algos.make_datasets(raw)
+  wit = {**witness(h), 'reg_weight': h['reg_weight']}
+  lam = h['reg_weight']
+  loss = algos.per_example_loss(0.0)
+  copt, sopt = toy.fedjax_optimizer(h['cspec']), toy.fedjax_optimizer(h['sspec'])
+  leaves = jax.tree_util.tree_leaves
+
+  def regularizer(p):
+    return 0.5 * lam * sum(jnp.sum(jnp.square(x)) for x in leaves(p))
+
+  shared = dict(cspec=h['cspec'], sspec=h['sspec'], hp=h['hp'], loss=loss, copt=copt, sopt=sopt)
+  ref_plain = Leg(ctx, 'fed_avg', algos.build('fed_avg', **shared), init, wit)
+  ref_reg = Leg(ctx, 'fed_avg', algos.build(
+      'fed_avg', grad_fn=jax.grad(lambda p, b, r: jnp.mean(loss(p, b, r)) + regularizer(p)), **shared), init, wit)
+  legs = []
+  mimelite = h['cspec'][0] == 'sgd' and h['sspec'] == ('sgd', 1.0)
+  for tag, rg in (('plain', None), ('reg', regularizer), ('plain-again', None), ('reg-again', regularizer)):
+    legs.append(('hyp1', tag, rg, Leg(ctx, 'hyp_cluster', algos.build('hyp_cluster', num_clusters=1, regularizer=rg, **shared), init, wit)))
+    if mimelite:
+      legs.append(('mimelite', tag, rg, Leg(ctx, 'mime_lite', algos.build(
+          'mime_lite', hp=h['hp'], loss=loss, copt=copt, cspec=h['cspec'], server_learning_rate=1.0, client_delta_clip_norm=None,
+          grads_batch_size=h['grads_batch_size'], regularizer=rg), init, wit)))
+  o64 = toy.FedAvgOracle(init, h['cspec'], h['sspec'], np.float64)
+  o32 = toy.FedAvgOracle(init, h['cspec'], h['sspec'], np.float32)
+  steps_total, nontrivial, discarded, felt = 0, False, False, False
+  for rnd in range(h['rounds']):
+    cohort_ids, clients, cohort = round_inputs(fedjax, jax, h, raw, ids, dsets, rnd)
+    steps_total += sum(len(b) for _, _, b in cohort)
+    nontrivial = nontrivial or is_nontrivial(cohort)
+    o64.round(cohort)
+    o32.round(cohort)
+    gap = toy.max_abs_diff(o32.params, o64.params)
+    scale = max(1.0, toy.max_abs(o64.params))
+    if not toy.all_finite(o64.params) or gap > 1e-2 * scale:
+      discarded = True
+      ctx.count('discarded-illconditioned')
+      break
+    tol = 3e-5 * scale * np.sqrt(steps_total + 1.0) + 50 * gap
+    w = {**wit, 'round': rnd}
+    e_plain, e_reg = ref_plain.step(clients, w), ref_reg.step(clients, w)
+    if e_plain is None or e_reg is None:
+      break
+    if toy.max_abs_diff(e_plain, e_reg) > 4 * tol:
+      felt = True
+    for key, tag, rg, leg in legs:
+      got = leg.step(clients, w)
+      if got is not None:
+        ctx.count('hit:reg-family-round')
+        compare(ctx, f'{key}/params-differ-from-fedavg',
+                f'round {rnd}: {leg.name} [{tag}, built after twins sharing its loss and optimizer objects] vs fed_avg on '
+                + ('mean loss + regularizer' if rg is not None else 'mean loss'), got, e_reg if rg is not None else e_plain, tol,
+                {**w, 'instance': tag})
+  for key, tag, rg, leg in legs:
+    leg.deferred(key, {**wit, 'instance': tag})
+  klass = ['family=reg', f"copt={h['cspec'][0]}", f"sopt={h['sspec'][0]}"] + (['discarded'] if discarded else [])
+  klass += ['regularizer-observable'] if felt else []
+  key = ('reg', lam, tuple(h['sizes']), tuple(sorted(h['hp'].items(), key=str)), h['cspec'], h['sspec'], tuple(map(tuple, h['cohorts'])))
+  ctx.case_done(key if (nontrivial and felt and not discarded) else None, sample=wit, klass=klass)
+
+
+RUNNERS = {'deg': run_deg, 'prox': run_prox, 'mime': run_mime, 'reg': run_reg}
 
 
 def run(ctx):
@@ -353,8 +436,20 @@ def run(ctx):
   err = toy.selfcheck_optimizers()
   if err:
     raise core.Inconclusive('oracle self-check failed: ' + err)
-  n = {'deg': 64, 'prox': 48, 'mime': 48} if ctx.quick else {'deg': 800, 'prox': 560, 'mime': 440}
-  for family in ('deg', 'prox', 'mime'):
+  n = {'deg': 64, 'prox': 48, 'mime': 48, 'reg': 24} if ctx.quick else {'deg': 800, 'prox': 560, 'mime': 440, 'reg': 240}
+  for family in ('deg', 'prox', 'mime', 'reg'):
     for cid, rng in ctx.cases(family, n[family]):
-      h = gen_history(rng, ctx.quick, family)
+      h = gen_history(rng, ctx.quick, 'deg' if family == 'reg' else family)
+      if family == 'reg':
+        # linear, well-conditioned optimizers only; the twins are judged with the tolerance of the plain oracle
+        lr = h['cspec'][1]
+        if h['cspec'][0] not in ('sgd', 'momentum'):
+          h['cspec'] = ('sgd', lr) if rng.rand() < 0.5 else ('momentum', lr, 0.9)
+        if h['sspec'][0] not in ('sgd', 'momentum'):
+          h['sspec'] = ('sgd', 1.0)
+        h['family'] = 'reg'
+        h['reg_weight'] = float([0.05, 0.5, 2.0][rng.randint(3)])
+        h['rounds'] = max(2, h['rounds'])
+        while len(h['cohorts']) < h['rounds']:
+          h['cohorts'].append(h['cohorts'][-1])
       RUNNERS[family](ctx, fedjax, jax, jnp, h)
